@@ -781,10 +781,18 @@ func GenC01(seed uint64, tier string) *Plan {
 		// of that answer, everything of the ones after it
 		g.respCutP = 0.15
 	}
+	gone := g.r.Chance(0.25)
 	g.genSetup()
 	n := g.stepCount()
 	for i := 0; i < n; i++ {
-		g.commit(g.respCut(g.genRequest()), nil)
+		st := g.respCut(g.genRequest())
+		if gone {
+			// requests whose context is cancelled while every stream stays
+			// healthy: carried out as the model says, or refused (>= 400) with
+			// the tree unchanged
+			st = g.goneClient(st)
+		}
+		g.commit(st, nil)
 	}
 	return g.plan
 }
